@@ -69,7 +69,7 @@ func main() {
 	case "--list":
 		type li struct {
 			ID, Explain, NotDecided, Technique string
-			Assumes                             []string
+			Assumes                            []string
 		}
 		var out []li
 		var ids []string
